@@ -39,8 +39,9 @@ def cases(tier, seed):
         for sz in szs:
             cs.append(dict(name='makeevenCIJ/n%d/sz%d' % (n, sz), fn='makeevenCIJ', kind='even', n=n, sz=sz, weight=10 * n))
             cs.append(dict(name='makefractalCIJ/n%d/sz%d' % (n, sz), fn='makefractalCIJ', kind='fractal', n=n, sz=sz, E=2, weight=10 * n))
-    for inv, outv in (([1, 1, 1, 0], [1, 0, 1, 1]), ([1, 1], [1, 1]), ([1, 1, 1], [1, 1, 1])) + ((([2, 1, 1], [1, 2, 1]),) if not q else ()):
-        cs.append(dict(name='makerandCIJdegreesfixed/%s/%s' % (''.join(map(str, inv)), ''.join(map(str, outv))), fn='makerandCIJdegreesfixed', kind='degfix', inv=inv, outv=outv, weight=30))
+    for inv, outv in (([1, 1, 1, 0], [1, 0, 1, 1]), ([1, 1], [1, 1]), ([1, 1, 1], [1, 1, 1]), ([2, 1, 0], [1, 1, 1]), ([2, 1, 1], [1, 2, 1])) + ((([2, 2, 2], [2, 2, 2]),) if not q else ()):
+        cs.append(dict(name='makerandCIJdegreesfixed/%s/%s' % (''.join(map(str, inv)), ''.join(map(str, outv))), fn='makerandCIJdegreesfixed', kind='degfix', inv=inv, outv=outv, weight=30 * sum(inv) ** 2, shard_depth=6,
+                       path_cap=(150 if (q and sum(inv) >= 4) else None)))   # 4 stubs: ~100k paths; quick explores 150 per shard (stated bound)
     return cs
 
 
